@@ -1,4 +1,4 @@
-"""symx -- shadow symbolic execution of real Python functions over z3 terms.
+r"""symx -- shadow symbolic execution of real Python functions over z3 terms.
 
 Symbolic values (SymInt / SymReal / SymBool) are ordinary Python objects wrapping z3 terms.
 Arithmetic on them builds terms; truth-testing a symbolic condition is a *fork*: the explorer asks
@@ -47,9 +47,12 @@ class Ctx:
         self.timeout_ms = timeout_ms
         self.max_paths = max_paths
         self.solver = None
+        self.incr_timeout_ms = min(timeout_ms, 4000)
+        self.n_fallback = 0
+        self.fresh_only = False
         if not self.concrete:
             self.solver = z3.Solver()
-            self.solver.set("timeout", timeout_ms)
+            self.solver.set("timeout", self.incr_timeout_ms)
         self.prefix: List[bool] = []
         self.trace: List[bool] = []
         self.pc: List[Any] = []
@@ -100,15 +103,30 @@ class Ctx:
         t = time.time()
         s = self.solver
         if timeout_ms is not None:
-            s.set("timeout", timeout_ms)
+            s.set("timeout", min(timeout_ms, self.incr_timeout_ms))
         s.push()
         for e in extra:
             s.add(e)
-        r = s.check()
-        m = s.model() if r == z3.sat else None
+        if self.fresh_only:
+            r, m = z3.unknown, None
+        else:
+            r = s.check()
+            m = s.model() if r == z3.sat else None
         s.pop()
         if timeout_ms is not None:
-            s.set("timeout", self.timeout_ms)
+            s.set("timeout", self.incr_timeout_ms)
+        if r == z3.unknown:
+            # the incremental core is weak on non-linear arithmetic; a fresh, non-incremental
+            # solver runs z3's full tactic pipeline (nlsat for polynomial real arithmetic)
+            self.n_fallback += 1
+            s2 = z3.Solver()
+            s2.set("timeout", timeout_ms if timeout_ms is not None else self.timeout_ms)
+            for p in self.pc:
+                s2.add(p)
+            for e in extra:
+                s2.add(e)
+            r = s2.check()
+            m = s2.model() if r == z3.sat else None
         self.solver_s += time.time() - t
         rs = str(r)
         if rs == "sat":
@@ -368,7 +386,13 @@ class SymNum(Sym):
             a, b = z3.ToReal(a), z3.ToReal(b)
         if ctx().decide(b == 0):
             raise ZeroDivisionError("division by zero")
-        # reciprocal trick: 1/(1/u) == u
+        # reciprocal parametrisation: 1/(1/u) == u (u != 0 was decided when 1/u was formed)
+        a = z3.simplify(a)
+        bs = z3.simplify(b)
+        if z3.is_rational_value(a) and bs.decl().kind() == z3.Z3_OP_DIV:
+            num, den = bs.arg(0), bs.arg(1)
+            if z3.is_rational_value(num) and num.numerator_as_long() != 0:
+                return wrap(a * den / num)
         return wrap(a / b)
 
     def __truediv__(self, o):
@@ -600,10 +624,14 @@ def s_trunc(x):
         it = _int_term(z3.simplify(x.t))
         if it is not None:
             return SymInt(z3.simplify(it))
-        # fork on the sign instead of an ite around to_int
+        # fork on the sign instead of an ite around to_int; keep ONE canonical to_int(x) term per
+        # x (z3 relates to_int(x) and to_int(-x) badly): trunc(x) for x < 0 is ceil(x)
+        f = z3.ToInt(x.t)
         if ctx().decide(x.t >= 0):
-            return SymInt(z3.simplify(z3.ToInt(x.t)))
-        return SymInt(z3.simplify(-z3.ToInt(-x.t)))
+            return SymInt(z3.simplify(f))
+        if ctx().decide(x.t == z3.ToReal(f)):
+            return SymInt(z3.simplify(f))
+        return SymInt(z3.simplify(f + 1))
     return math.trunc(x)
 
 
@@ -669,17 +697,37 @@ def s_fmod(x, y):
         if ctx().decide(b == 0):
             raise ValueError("math domain error")
         q = z3.simplify(a / b)
-        if ctx().decide(q >= 0):
-            tr = z3.ToInt(q)
-        else:
-            tr = -z3.ToInt(-q)
-        return wrap(a - b * z3.ToReal(tr))
+        tr = s_trunc(SymReal(q))
+        return wrap(a - b * z3.ToReal(tr.t))
     return math.fmod(x, y)
+
+
+class Log2Of(Sym):
+    """log2(n) for a symbolic integer n: only ceil() of it is modelled (1 <= n <= 2^40)."""
+
+    __slots__ = ("n",)
+
+    def __init__(self, n):
+        self.n = n
+        self.t = None
+
+    def __ceil__(self):
+        n = self.n.t
+        c = ctx()
+        if c.decide(z3.Or(n < 1, n > 2**40)):
+            raise Abort("ceil(log2(n)) outside the modelled range 1..2^40")
+        r = z3.IntVal(40)
+        for k in range(39, -1, -1):
+            r = z3.If(n <= 2**k, z3.IntVal(k), r)
+        return SymInt(z3.simplify(r))
+
+    def __floor__(self):
+        raise Abort("floor(log2(n)) not modelled")
 
 
 def s_log2(x):
     if isinstance(x, SymInt):
-        raise Abort("log2 of a symbolic value (only ceil(log2(n)) is modelled, see s_ceil_log2)")
+        return Log2Of(x)
     if isinstance(x, Sym):
         raise Abort("log2 of symbolic real")
     return math.log2(x)
@@ -1180,12 +1228,14 @@ def explore(
     expected_exc: tuple = (),
     deadline_s: Optional[float] = None,
     nsamples: int = 2,
+    fresh_only: bool = False,
 ) -> Result:
     """Run ``harness`` on every feasible path.  The harness states its property with prove().
     An exception escaping the harness (other than engine-internal ones) is a violation candidate."""
     res = Result()
     t0 = time.time()
     c = Ctx(timeout_ms=timeout_ms, max_paths=max_paths)
+    c.fresh_only = fresh_only
     prev = Ctx.cur
     Ctx.cur = c
     c.pending.append([])
